@@ -71,11 +71,14 @@ class Work:
         shutil.rmtree(self.dir, ignore_errors=True)
 
 
-def _specdir(work, name):
+def _specdir(work, name, renames=None):
+    """copies the specs into a scratch dir; renames = {target name: source name} (e.g. which alphabet a module reads)"""
     d = work.sub(name)
     for f in os.listdir(SPECS):
         if f.endswith(".tla") or f.endswith(".cfg") or f.endswith(".json"):
             shutil.copyfile(os.path.join(SPECS, f), os.path.join(d, f))
+    for dst, src in (renames or {}).items():
+        shutil.copyfile(os.path.join(SPECS, src), os.path.join(d, dst))
     return d
 
 
@@ -129,7 +132,7 @@ def check_base(work, models):
     violation (a design variant that is known to break the property - shows the invariant has teeth)."""
     res = []
     for m in models:
-        d = _specdir(work, "base-" + m["cfg"].replace(".cfg", ""))
+        d = _specdir(work, "base-" + m["cfg"].replace(".cfg", ""), m.get("renames"))
         r = run_tlc(d, m["module"], m["cfg"], workers=m.get("workers", NCPU), heap=m.get("heap", "12g"),
                     timeout=m.get("timeout", 900), extra=m.get("extra"))
         ok = "Model checking completed. No error has been found." in r["out"]
@@ -174,8 +177,8 @@ def run_vdrive(binary, family, outdir, tier, seed, args=None, replay=None, timeo
     return meta
 
 
-def _validate_chunk(work, trace_module, trace_cfg, chunk_path, idx, heap, timeout, env_extra=None, workers=1):
-    d = _specdir(work, "val-%s-%04d" % (trace_module, idx))
+def _validate_chunk(work, trace_module, trace_cfg, chunk_path, idx, heap, timeout, env_extra=None, workers=1, renames=None):
+    d = _specdir(work, "val-%s-%04d" % (trace_module, idx), renames)
     shutil.copyfile(chunk_path, os.path.join(d, "trace.ndjson"))
     r = run_tlc(d, trace_module, trace_cfg, workers=workers, heap=heap, timeout=timeout, env_extra=env_extra)
     viols, end, infos = [], None, []
@@ -194,7 +197,7 @@ def _validate_chunk(work, trace_module, trace_cfg, chunk_path, idx, heap, timeou
     return dict(viols=viols, end=end, infos=infos, states=r["distinct"], wall=r["wall"], out=r["out"])
 
 
-def validate(work, trace_module, trace_cfg, outdir, heap="3g", timeout=1200, parallel=None, env_extra=None, linear=True):
+def validate(work, trace_module, trace_cfg, outdir, heap="3g", timeout=1200, parallel=None, env_extra=None, linear=True, renames=None):
     """Validates every chunk in outdir with TLC (one process per chunk, in parallel).
     Returns dict(viols=[...], events, accepted_events, infos, wall)."""
     chunks = sorted(f for f in os.listdir(outdir) if f.startswith("chunk_") and f.endswith(".ndjson"))
@@ -204,7 +207,7 @@ def validate(work, trace_module, trace_cfg, outdir, heap="3g", timeout=1200, par
     par = parallel or max(1, min(len(chunks), NCPU // 2))
     results = []
     with cf.ThreadPoolExecutor(max_workers=par) as ex:
-        futs = [ex.submit(_validate_chunk, work, trace_module, trace_cfg, os.path.join(outdir, c), i, heap, timeout, env_extra) for i, c in enumerate(chunks)]
+        futs = [ex.submit(_validate_chunk, work, trace_module, trace_cfg, os.path.join(outdir, c), i, heap, timeout, env_extra, 1, renames) for i, c in enumerate(chunks)]
         for f in futs:
             results.append(f.result())
     viols, infos, events, states = [], [], 0, 0
